@@ -111,11 +111,11 @@ class BulkHarness(Harness):
                     meta = g.coin(0.4)
                     files.append({"large": f"L{n}{'m' if meta else ''}", "docs": n, "meta": meta})
                 else:
-                    files.append({"docs": g.pick([0, 1, 2, 3, 7, 10, 31, 64, 100, 257, 300]) if g.coin(0.5) else g.randint(0, 300), "meta": g.coin(0.3), "utf8": g.coin(0.4)})
+                    files.append({"docs": g.pick([0, 1, 2, 3, 7, 10, 31, 64, 100, 257, 300]) if g.coin(0.5) else g.randint(0, 300 if tier == "quick" else 2500), "meta": g.coin(0.3), "utf8": g.coin(0.4)})
             corpora.append({"name": f"c{ci}", "files": files})
         if not large_run and all(f["docs"] == 0 for c in corpora for f in c["files"]):
             corpora[0]["files"][0]["docs"] = 5
-        clients = g.pick([1, 2, 3, 4, 5, 6, 7, 8, 9])
+        clients = g.pick([1, 2, 3, 4, 5, 6, 7, 8, 9] + ([12, 16, 17] if tier == "thorough" else []))
         ngroups = min(clients, g.pick([1, 1, 2, 3, 4]))
         cuts = sorted(g.sample(range(1, clients), ngroups - 1)) if ngroups > 1 else []
         b = [0] + cuts + [clients]
